@@ -42,7 +42,7 @@ def meta(tier):
                  'labels, dangling jumps, duplicate functions and arguments) and the shipped .bare scripts; lint runs on a frozen model '
                  '(twice); every "unused variable/argument" warning is tested by renaming, every "unused label" / "pointless statement" '
                  'warning by deleting, and re-executing edited and original model on the real runtime with identical globals; the '
-                 'unknown-label and redefinition warning sets are compared with RefLint. Non-trivial: a model with >= 1 warning whose '
+                 'unknown-label and redefinition warning sets are compared with RefLint; the same models are linted in child interpreters under four other PYTHONHASHSEED values and must give identical lists. Non-trivial: a model with >= 1 warning whose '
                  'edit was executed, or with label facts to compare; distinct = distinct model.'),
         'exhaustive': False,
         'assumptions': ['one-level functions; models whose function names are duplicated are only checked for purity and RefLint facts (an edit '
